@@ -308,6 +308,140 @@ def rule_for_index(text, ctx, where):
     return text, n
 
 
+def chain_start(m, dot):
+    """m masked text; `dot` index of the '.' that starts the method being rewritten. Walk back over the receiver, a
+    postfix chain  ident ( '.' ident | '::' ident | '(..)' | '[..]' )*  possibly spread over lines."""
+    j = dot
+    group_head = None
+    while True:
+        k = j
+        while k > 0 and m[k - 1].isspace():
+            k -= 1
+        if group_head is not None and not (k > 0 and (m[k - 1].isalnum() or m[k - 1] == "_")):
+            return group_head      # a parenthesised group is itself the head of the chain
+        group_head = None
+        if k > 0 and m[k - 1] in ")]":
+            depth, q = 0, k - 1
+            while q >= 0:
+                if m[q] in ")]}":
+                    depth += 1
+                elif m[q] in "([{":
+                    depth -= 1
+                    if depth == 0:
+                        break
+                q -= 1
+            if q < 0:
+                raise AnchorLost("receiver chain: unbalanced")
+            j = q
+            group_head = q
+            continue
+        if k > 0 and (m[k - 1].isalnum() or m[k - 1] == "_"):
+            q = k - 1
+            while q > 0 and (m[q - 1].isalnum() or m[q - 1] == "_"):
+                q -= 1
+            j = q
+            k2 = j
+            while k2 > 0 and m[k2 - 1].isspace():
+                k2 -= 1
+            if k2 > 0 and m[k2 - 1] == "." and not (k2 > 1 and m[k2 - 2] == "."):
+                j = k2 - 1
+                continue
+            if k2 > 1 and m[k2 - 2:k2] == "::":
+                j = k2 - 2
+                continue
+            return j
+        raise AnchorLost("receiver chain: cannot find start")
+
+
+def _opt_method(text, name, build, where):
+    """rewrite the LAST (innermost-first) occurrence of `RECV.<name>(CLOSURE)` repeatedly"""
+    n = 0
+    while True:
+        m = mask(text)
+        hits = [x for x in re.finditer(r"\.\s*" + name + r"\s*\(", m)]
+        hits = [x for x in hits if not re.search(r"\.(iter|into_iter|iter_mut|chars|keys|values|lines)\(\)\s*$", m[:x.start()].rstrip() + "")]
+        if not hits:
+            break
+        mt = hits[0]
+        b = mt.end() - 1
+        e = match_delim(m, b)
+        s0 = chain_start(m, mt.start())
+        recv = text[s0:mt.start()].strip()
+        arg = text[b + 1:e].strip()
+        text = text[:s0] + build(recv, arg) + text[e + 1:]
+        n += 1
+        if n > 200:
+            raise AnchorLost(f"{where}: {name} rule does not terminate")
+    return text, n
+
+
+def rule_opt_map(text, ctx, where):
+    """`X.map(|v| E)` on an Option -> `(match X { Some(v) => Some(E), None => None })`  (not applied after .iter() etc.)"""
+    def build(recv, arg):
+        pat, body = _split_closure(arg)
+        return f"(match {recv} {{ Some({pat}) => Some({body}), None => None }})"
+    return _opt_method(text, "map", build, where)
+
+
+def rule_opt_or_else(text, ctx, where):
+    """`X.or_else(|| E)` on an Option -> `(match X { Some(__o) => Some(__o), None => E })`"""
+    def build(recv, arg):
+        a = arg.strip()
+        if not a.startswith("||"):
+            raise AnchorLost(f"{where}: or_else with a non-closure argument")
+        return f"(match {recv} {{ Some(__o) => Some(__o), None => {a[2:].strip()} }})"
+    return _opt_method(text, "or_else", build, where)
+
+
+def rule_closure_inline(text, ctx, where):
+    """`let f = |a, b| EXPR;` + calls `f(x, y)` with identifier arguments -> the calls are replaced by `(EXPR[a:=x, b:=y])`
+    and the `let` is dropped (beta-reduction; sound for expression closures called with plain variables)"""
+    n = 0
+    while True:
+        m = mask(text)
+        mt = re.search(r"\blet\s+([a-z_][a-z_0-9]*)\s*=\s*\|([^|]*)\|", m)
+        if not mt:
+            break
+        name = mt.group(1)
+        params = [a.split(":")[0].strip() for a in text[mt.start(2):mt.end(2)].split(",") if a.strip()]
+        # body: up to the `;` at depth 0
+        j, depth = mt.end(), 0
+        while j < len(m):
+            c = m[j]
+            if c in "([{":
+                depth += 1
+            elif c in ")]}":
+                depth -= 1
+            elif c == ";" and depth == 0:
+                break
+            j += 1
+        body = text[mt.end():j].strip()
+        if body.startswith("{") or body.startswith("->"):
+            raise AnchorLost(f"{where}: closure {name} is not a plain expression closure")
+        rest = text[j + 1:]
+        mrest = mask(rest)
+        out, last = [], 0
+        for c in re.finditer(r"(?<![A-Za-z0-9_\.])" + re.escape(name) + r"\s*\(", mrest):
+            b = c.end() - 1
+            e = match_delim(mrest, b)
+            actuals = [a.strip() for a in rest[b + 1:e].split(",") if a.strip()]
+            if len(actuals) != len(params) or not all(re.fullmatch(r"[A-Za-z_][\w\.]*", a) for a in actuals):
+                raise AnchorLost(f"{where}: closure {name} called with non-variable arguments")
+            inst = body
+            for pa, ac in zip(params, actuals):
+                inst = re.sub(r"(?<![A-Za-z0-9_\.])" + re.escape(pa) + r"(?![A-Za-z0-9_])", ac, inst)
+            out.append(rest[last:c.start()])
+            out.append("(" + inst + ")")
+            last = e + 1
+        out.append(rest[last:])
+        new_rest = "".join(out)
+        if re.search(r"(?<![A-Za-z0-9_\.])" + re.escape(name) + r"(?![A-Za-z0-9_])", mask(new_rest)):
+            raise AnchorLost(f"{where}: closure {name} used as a value")
+        text = text[:mt.start()] + new_rest
+        n += 1
+    return text, n
+
+
 def rule_assert_partial(text, ctx, where):
     """PARTIAL mode: `assert!(E);` / `debug_assert!(E);` -> `{ let __aN = E; proof { assume(__aN); } }`
     (E is still evaluated, with its effects; what follows is proved only for executions where the assertion held)"""
@@ -350,7 +484,7 @@ def rule_unreachable_partial(text, ctx, where):
     return text, n
 
 
-RULES = {"unreachable_partial": rule_unreachable_partial, "assert_partial": rule_assert_partial, "for_index": rule_for_index, "map_err_q": rule_map_err_q, "iter_any": rule_iter_any, "opt_map_or": rule_opt_map_or, "mutself": rule_mutself, "fmtmsg": rule_fmtmsg, "pubfields": rule_pubfields, "T": rule_T, "attrs": rule_attrs, "cell": rule_cell}
+RULES = {"opt_map": rule_opt_map, "opt_or_else": rule_opt_or_else, "closure_inline": rule_closure_inline, "unreachable_partial": rule_unreachable_partial, "assert_partial": rule_assert_partial, "for_index": rule_for_index, "map_err_q": rule_map_err_q, "iter_any": rule_iter_any, "opt_map_or": rule_opt_map_or, "mutself": rule_mutself, "fmtmsg": rule_fmtmsg, "pubfields": rule_pubfields, "T": rule_T, "attrs": rule_attrs, "cell": rule_cell}
 
 
 def apply_rules(text, rules, ctx, counts, where):
